@@ -133,7 +133,7 @@ def overwrite_active_rows(u):
     u.cover("end")
 
 
-@unit("C14.Asymmetric.assembly", ["C14", "C06"], [ASY + "compute_deriv"], config={"max_paths": 40, "implicit_props": ["C06", "C14"]})
+@unit("C14.Asymmetric.assembly", ["C14", "C06", "C11"], [ASY + "compute_deriv"], config={"max_paths": 40, "implicit_props": ["C06", "C14"]})
 def asymmetric_assembly(u):
     """compute_deriv establishes the precondition of overwrite_active_rows (diagonal stored) and returns, entry by
     entry, the system of the abstract solve_scaled contract: unit rows for the active components, the rows of
@@ -142,18 +142,26 @@ def asymmetric_assembly(u):
     av = V(act)
     J, H = Mat(m, n, None, name="J"), Mat(n, n, None, name="H0")
     ss.fields["_jac"], ss.fields["_hess"] = J, H
+    # C11: the stored derivatives are shallow copies (copy.copy) of the caller's matrices: their arrays are the caller's
+    from .c04_transform import StoreLog
+
+    for M_ in (J, H):
+        M_.region, M_.container_region = "USER", "FRESH"
+    slog = StoreLog(u)
     kron = lambda a, b: z3.If(a == b, z3.RealVal(1), z3.RealVal(0))
     called = []
 
     def overwrite_contract(it, self_, matrix):
         """contract proved in unit C14.Asymmetric.overwrite_active_rows"""
         u.ensure(getattr(matrix, "diag_stored", False) is True and matrix.fmt == "csr", "overwrite_active_rows:requires:canonical_csr_with_the_diagonal_of_every_row_stored", desc="the matrix handed to overwrite_active_rows is CSR and the diagonal entry of every row is known to be stored (setdiag)")
+        u.ensure(matrix.region != "USER" and getattr(matrix, "container_region", matrix.region) != "USER", "overwrite_active_rows:modifies_only_a_matrix_that_does_not_share_arrays_with_the_caller's_data", props=["C11", "C14"])
         e0 = matmodel.entry_fn(it, matrix)
         matrix.entry = lambda i, c: z3.If(z3.And(matmodel._iv(i) < n, av.f(matmodel._iv(i))), kron(matmodel._iv(i), matmodel._iv(c)), ops._real(e0(i, c)))
         called.append(matrix)
 
     u.it.abstract[ASY + "overwrite_active_rows"] = overwrite_contract
     D = u.method(ss, "compute_deriv", act)
+    slog.check()
     u.ensure(len(called) == 1 and called[0] is D, "the_overwritten_matrix_is_the_one_returned")
     u.ensure(ss.fields["_hess"] is H and ss.fields["_jac"] is J, "stored_Hessian_and_Jacobian_objects_are_not_replaced")
     e = matmodel.entry_fn(u.it, D)
